@@ -270,6 +270,6 @@ func shrinkC24(scAny any) []any {
 func init() {
 	Register(&Prop{ID: "C24", Level: "exploration",
 		Rule: "one case = a server constructed from drawn options followed by 1-6 runtime updates (UpdateExportOptions, UpdateTuningOptions, UpdatePolicyOptions) whose numeric and duration fields are drawn from {zero, negative, small, normal}, Timeouts from {nil, all-zero, partial, full, negative}, RateLimitConfig nil or set, Squash equal or changed; after every update: GetExportOptions is compared field by field with what absnfs.New makes of the same option values (differential against construction, no default constants mirrored), every setting in force must be positive, a rejected update must leave GetExportOptions identical, a Squash change must be rejected, and a client on the simulated network must still get LOOKUP, READ (>=1 byte) and WRITE served; non-trivial = at least one update; distinct by event digest",
-		Gen: genC24, New: func() any { return &C24Scn{} }, Run: runC24, Shrink: shrinkC24, Real: seqReal, Stubbed: seqStubbed})
+		Gen:  genC24, New: func() any { return &C24Scn{} }, Run: runC24, Shrink: shrinkC24, Real: seqReal, Stubbed: seqStubbed})
 	_ = nfsclient.NFS3_OK
 }
